@@ -52,6 +52,9 @@ func c01Compare(s *c01Src, cfg Cfg) (kind, detail string) {
 	}
 	got := ref.RunJS(co.Code)
 	if got.Interrupted {
+		if got.Hang {
+			return "output-does-not-terminate", fmt.Sprintf("output %q still runs after 30 s; the source finished with %s", co.Code, s.obs)
+		}
 		return "", "" // no verdict
 	}
 	if got.String() != s.obs.String() {
